@@ -199,6 +199,11 @@ for _pl, _f in (("est", "src/ompl/control/planners/est/src/EST.cpp"), ("kpiece1"
                       sources=[dict(name="ctrl_epilogue", file=_f, begin=r"bool approximate = false;\s*if \(solution == nullptr\)", end=r"return \{solved, approximate\};", rules=CE_RULES, loops={"allow_uncontracted": True}, wrap_braces=False)],
                       canaries=[dict(name="control_of_the_parent", where="body:ctrl_epilogue", rx=r"PATH_APPEND3\(mpath\[i\], mpath\[i\],", repl="PATH_APPEND3(mpath[i], M_parent[mpath[i]],")]))
 
+# the per-motion exact / approximate bookkeeping of control EST and KPIECE1 (template and rules shared with C01)
+import importlib.util as _ilu2, os as _os2, copy as _copy2
+_sp = _ilu2.spec_from_file_location("c01r", _os2.path.join(_os2.path.dirname(__file__), "C01.py")); _C01 = _ilu2.module_from_spec(_sp); _sp.loader.exec_module(_C01)
+UNITS += [_copy2.deepcopy(u) for u in _C01.REC_UNITS.get("C02", [])]
+
 ASSUMPTIONS = ["the user's state propagator and validity checker are deterministic callbacks; states/controls are abstract objects with ghost counters",
                "bounded: |steps| <= 4, at most 3 control samples; control dimension <= 64", "RNG contract uniformReal in [a,b)",
                "planner fragments: motions/states/controls are references with ghost content ids; the goal, samplers and propagators are arbitrary"]
